@@ -9,6 +9,7 @@ package varmq
 import (
 	"bufio"
 	"fmt"
+	"strconv"
 	"strings"
 
 	"github.com/goptics/varmq/internal/vt"
@@ -113,7 +114,7 @@ func writeJobSlices(w *bufio.Writer, s *vt.Sched, tag string) int {
 				}
 			}
 		case "q:enq":
-			emit(ev.Obj, ev.Tid, fmt.Sprintf("enq %d %s", ev.Tid, ev.Val))
+			emit(ev.Obj, ev.Tid, fmt.Sprintf("enq %d %s", ev.Tid, strings.Fields(ev.Val)[0]))
 		case "q:deq":
 			emit(ev.Obj, ev.Tid, fmt.Sprintf("deq %d", ev.Tid))
 		case "q:purged":
@@ -244,4 +245,258 @@ func writeLifeSlices(w *bufio.Writer, s *vt.Sched, tag string) int {
 		fmt.Fprintf(w, "ENDLIFE\n")
 	}
 	return n
+}
+
+// writeDispSlices emits, per job of an in-memory queue, the events of coq/SliceDisp.v: the
+// job's own progress and, through counters, everything else that touches the worker's
+// in-flight accounting. Only episodes with a single worker are projected.
+func writeDispSlices(w *bufio.Writer, s *vt.Sched, tag string) int {
+	// which jobs, which queue each is in
+	jobQ := map[int]string{}
+	var jobs []int
+	workers := map[int]bool{}
+	for _, ev := range s.Log {
+		if ev.Kind == "q:enq" {
+			f := strings.Fields(ev.Val)
+			if _, seen := jobQ[ev.Obj]; !seen && len(f) == 2 {
+				jobQ[ev.Obj] = f[1]
+				jobs = append(jobs, ev.Obj)
+			}
+		}
+		if si := siteTab[ev.Site]; si.Field == "curProcessing" && ev.Owner != 0 {
+			workers[ev.Owner] = true
+		}
+	}
+	if len(workers) != 1 {
+		return 0
+	}
+	n := 0
+	for _, j := range jobs {
+		lines, ok := projectDisp(s, j, jobQ[j])
+		if !ok {
+			continue
+		}
+		fmt.Fprintf(w, "DISP %s o%d\n", tag, j)
+		for _, l := range lines {
+			w.WriteString("d " + l + "\n")
+		}
+		fmt.Fprintf(w, "ENDDISP\n")
+		n++
+	}
+	return n
+}
+
+// sizeTags: for the FIFO queue, the length word changes (size.Add / size.Store) before the
+// thread marks which job it moved; a lock-free Len() in between already sees the new length.
+// Each size event is therefore tagged with the mark the same thread makes next.
+type sizeTag struct {
+	kind string // enq, deq, purge
+	job  int
+	val  string
+}
+
+func sizeTags(s *vt.Sched) (map[int]sizeTag, map[int]bool) {
+	tags := map[int]sizeTag{}
+	covered := map[int]bool{} // indices of marks whose effect was already emitted at the size event
+	pending := map[int]int{}
+	for i, ev := range s.Log {
+		si := siteTab[ev.Site]
+		if si.Field == "size" && (ev.Kind == "add" || ev.Kind == "store") && strings.HasPrefix(si.Func, "Queue.") {
+			pending[ev.Tid] = i + 1
+			continue
+		}
+		switch ev.Kind {
+		case "q:enq", "q:deq", "q:purge":
+			if p := pending[ev.Tid]; p > 0 {
+				tags[p-1] = sizeTag{ev.Kind, ev.Obj, ev.Val}
+				covered[i] = true
+				pending[ev.Tid] = 0
+			}
+		}
+	}
+	return tags, covered
+}
+
+func projectDisp(s *vt.Sched, j int, qid string) ([]string, bool) {
+	var out []string
+	emit := func(l string) { out = append(out, l) }
+	tags, coveredMarks := sizeTags(s)
+	const (
+		tNone = iota
+		tReserved
+		tFirstStopped // first status load after reserving saw Stopped (IsPaused false); IsStopped decides
+		tOkFirst      // first load saw a non-halted status: the re-check passed; the IsStopped load follows
+		tOk
+		tDoomed
+		tDeqJ
+		tDeqJFailed
+		tDeqOther
+	)
+	tstate := map[int]int{}
+	inPNJ := map[int]int{} // depth of processNextJob frames per thread
+	stacks := map[int][]string{}
+	cur := 0
+	runner := -1
+	guardA := map[int]string{}
+	guardC := map[int]string{}
+	for idx, ev0 := range s.Log {
+		ev := ev0
+		if tg, ok := tags[idx]; ok {
+			// replay the mark's effect here, at the length word's change
+			ev = vt.Event{Tid: ev0.Tid, Site: 0, Kind: tg.kind, Obj: tg.job, Val: tg.val}
+		} else if coveredMarks[idx] {
+			continue
+		}
+		si := siteTab[ev.Site]
+		fn := si.Func
+		switch ev.Kind {
+		case "enter":
+			stacks[ev.Tid] = append(stacks[ev.Tid], fn)
+			if fn == "worker.processNextJob" {
+				inPNJ[ev.Tid]++
+			}
+			continue
+		case "leave":
+			st := stacks[ev.Tid]
+			if len(st) > 0 {
+				if st[len(st)-1] == "worker.processNextJob" {
+					inPNJ[ev.Tid]--
+				}
+				stacks[ev.Tid] = st[:len(st)-1]
+			}
+			continue
+		}
+		t := ev.Tid
+		switch {
+		case si.Field == "curProcessing" && ev.Kind == "add":
+			v, _ := strconv.Atoi(ev.Val)
+			up := v == cur+1
+			cur = v
+			if up {
+				if guardA[t] == "" || guardC[t] == "" {
+					emit("? reserve without a guard evaluation by the same thread")
+				} else {
+					emit("reserve " + guardA[t] + " " + guardC[t])
+				}
+				guardA[t], guardC[t] = "", ""
+				tstate[t] = tReserved
+				continue
+			}
+			if fn == "worker.processNextJob" {
+				switch tstate[t] {
+				case tDoomed:
+					emit("unresdoomed")
+				case tOk, tOkFirst:
+					emit("unresok")
+				case tDeqJFailed:
+					emit("unresskipj")
+				case tDeqOther:
+					emit("unresskipother")
+				default:
+					emit(fmt.Sprintf("? unreserve in thread state %d", tstate[t]))
+				}
+				tstate[t] = tNone
+			} else {
+				if t == runner {
+					emit("releasej")
+					runner = -1
+				} else {
+					emit("releaseother")
+				}
+			}
+		case si.Field == "curProcessing" && ev.Kind == "load":
+			if fn == "worker.goEventLoop" {
+				guardA[t] = ev.Val
+			}
+			emit("curload " + ev.Val)
+		case si.Field == "concurrency" && ev.Kind == "load" && fn == "worker.goEventLoop":
+			guardC[t] = ev.Val
+		case si.Field == "curProcessing":
+			emit("? " + ev.Kind + " on curProcessing at " + si.Name)
+		case si.Field == "status" && strings.HasPrefix(fn, "worker.") && ev.Kind == "store":
+			emit("ststore " + ev.Val)
+		case si.Field == "status" && strings.HasPrefix(fn, "worker.") && ev.Kind == "load":
+			if inPNJ[t] > 0 && fn == "worker.IsPaused" && tstate[t] == tReserved {
+				switch ev.Val {
+				case "2":
+					emit("recheck 2")
+					tstate[t] = tDoomed
+				case "3":
+					emit("stload 3")
+					tstate[t] = tFirstStopped
+				default:
+					emit("recheck " + ev.Val)
+					tstate[t] = tOkFirst
+				}
+			} else if inPNJ[t] > 0 && fn == "worker.IsStopped" && tstate[t] == tFirstStopped {
+				if ev.Val == "2" {
+					return nil, false // stopped -> restarted -> paused between two adjacent loads: outside the model
+				}
+				emit("recheck " + ev.Val)
+				if ev.Val == "3" {
+					tstate[t] = tDoomed
+				} else {
+					tstate[t] = tOk
+				}
+			} else if inPNJ[t] > 0 && fn == "worker.IsStopped" && tstate[t] == tOkFirst {
+				emit("stload " + ev.Val)
+				tstate[t] = tOk // if it saw Stopped the code returns and the deferred decrement follows (unresok)
+			} else {
+				emit("stload " + ev.Val)
+			}
+		case si.Field == "status" && strings.HasPrefix(fn, "worker."):
+			emit("? " + ev.Kind + " on worker status at " + si.Name)
+		case ev.Kind == "q:enq":
+			f := strings.Fields(ev.Val)
+			if ev.Obj == j {
+				if f[0] == "1" {
+					emit("acceptj")
+				} else {
+					emit("rejectj")
+				}
+			} else if len(f) == 2 && f[1] == qid && f[0] == "1" {
+				emit("enqother")
+			}
+		case ev.Kind == "q:deq":
+			if ev.Obj == j {
+				emit("deqj")
+				tstate[t] = tDeqJ
+			} else if ev.Val == qid {
+				emit("deqothersameq")
+				tstate[t] = tDeqOther
+			} else {
+				emit("deqotherq")
+				tstate[t] = tDeqOther
+			}
+		case ev.Kind == "ad:deq" && strings.HasPrefix(ev.Val, "1"):
+			emit("deqotherq")
+			tstate[t] = tDeqOther
+		case ev.Kind == "q:purge":
+			f := strings.Fields(ev.Val)
+			if f[0] == qid {
+				emit("purgeq " + f[1])
+			}
+		case ev.Kind == "q:len":
+			f := strings.Fields(ev.Val)
+			if f[0] == qid {
+				emit("lenq " + f[1])
+			}
+		case ev.Kind == "load" && fn == "job.startProcessing" && ev.Owner == j && ev.Val == "4":
+			emit("claimj 0")
+			tstate[t] = tDeqJFailed
+		case ev.Kind == "cas" && fn == "job.startProcessing" && ev.Owner == j && strings.HasPrefix(ev.Val, "1:"):
+			emit("claimj 1")
+			tstate[t] = tNone
+		case ev.Kind == "wf+" && ev.Obj == j:
+			emit("wfenterj")
+			runner = t
+		case ev.Kind == "wf-" && ev.Obj == j:
+			emit("wfexitj")
+		case ev.Kind == "wf+":
+			emit("wfenterother")
+		case ev.Kind == "wf-":
+			emit("wfexitother")
+		}
+	}
+	return out, true
 }
